@@ -22,7 +22,7 @@ BAD_LINES = ['', ' ', '\t \n', 'foo', 'foo a=1', 'note_on note', 'note_on note='
              'sysex data=', 'sysex data= time=3', 'sysex data=(', 'sysex data=)', 'sysex data==', 'note_on note= velocity=3', 'sysex time=1 data=',
              'note_on channel=', 'songpos pos=', 'pitchwheel pitch=', 'note_on time= note=1']
 MODEL_TIMES = [0, -3, 7, 0.5, 2.25, -1.5, 3.0, 10 ** 30]
-ORACLE_TIMES = MODEL_TIMES + [1e-7, 1e300, 123456.789]
+ORACLE_TIMES = MODEL_TIMES + [1e-7, 1e300, 123456.789, 10 ** 400, -(2 ** 1030), 1.7976931348623157e308, 5e-324, 2 ** 1024]
 
 
 def cps(s):
@@ -172,6 +172,27 @@ def impl_repr(obj_desc):
             x = mido.MidiTrack(smf.build_event(e) for e in obj_desc[1])
             y = eval(repr(x))
             ok = (list(y) == list(x) and type(y) is type(x))
+        elif kind == 'utf8text':
+            # text that only a file of another charset can hold: messages made inside a charset scope / read from a utf-8
+            # file, looked at after the scope has ended (a repr carries no charset; a message needs none to exist)
+            import io
+            from mido.midifiles.meta import meta_charset
+            txt = obj_desc[1]
+            with meta_charset('utf-8'):
+                m = MetaMessage('text', text=txt, time=3)
+                tr = MidiTrack([m, MetaMessage('track_name', name=txt), MetaMessage('lyrics', text=txt[::-1], time=1)])
+            buf = io.BytesIO()
+            MidiFile(charset='utf-8', tracks=[tr]).save(file=buf)
+            x = MidiFile(file=io.BytesIO(buf.getvalue()), charset='utf-8')
+            ok = True
+            for obj in (m, x.tracks[0][0], x.tracks[0][1]):
+                y = eval(repr(obj))
+                ok = ok and y == obj and type(y) is type(obj)
+            for obj in (tr, x.tracks[0]):
+                y = eval(repr(obj))
+                ok = ok and list(y) == list(obj) and type(y) is type(obj)
+            y = eval(repr(x))
+            ok = ok and y.type == x.type and y.ticks_per_beat == x.ticks_per_beat and [list(t) for t in y.tracks] == [list(t) for t in x.tracks]
         elif kind == 'loadedfile':
             # a file as it comes out of load(): the header fields are whatever 16-bit values the bytes hold (an SMPTE time
             # division is a negative ticks_per_beat, a division of 0 is storable too)
@@ -245,7 +266,12 @@ def gen(ck):
         elif r < 0.45:
             rng.shuffle(words)
         texts.append(rng.choice([' ', '  ', '\t', ' \n ']).join(words) if rng.random() < 0.2 else ' '.join(words))
-    streams = []
+    # very long (finite) numerals: integers have no largest value
+    big = '9' * 401
+    texts += ['note_on time=' + big, 'note_on note=999 time=' + big, 'note_on note=5 time=-' + big, 'clock time=1' + '0' * 330,
+              'program_change program=' + big, 'note_on note=5 velocity=300 time=' + big]
+    streams = [['note_on note=999 time=' + big, 'note_on note=1 time=' + big, 'note_on note=1000', 'clock'],
+               ['note_on time=' + big + ' # big', 'bogus', 'note_off note=3']]
     for _ in range(n // 5):
         lines = []
         for _l in range(rng.randint(0, 8)):
@@ -276,6 +302,8 @@ def gen(ck):
         for ty_ in (0, 1):
             reprs.append(('loadedfile', [77, 84, 104, 100, 0, 0, 0, 6, 0, ty_, 0, 1, division >> 8, division & 255,
                                          77, 84, 114, 107, 0, 0, 0, 8, 0, 0x90, 60, 64, 5, 0xff, 0x2f, 0]))
+    for txt in ('snow\u2603man', '\u266a la la', 'caf\xe9', '\u65e5\u672c\u8a9e', 'na\xefve \u2014 \U0001f3b9', 'abc', ''):
+        reprs.append(('utf8text', txt))
     reprs.append(('file', {'type': 1, 'tpb': 480, 'tracks': []}))
     reprs.append(('file', {'type': 1, 'tpb': 480, 'tracks': [[], [(0, 'msg', 'note_on', {})]]}))
     reprs.append(('track', [(0, 'msg', 'note_on', {})]))
